@@ -1070,6 +1070,29 @@ fn real_tokens(text: &str) -> Vec<std::ops::Range<usize>> {
     crude_tokens(text).into_iter().filter(|r| !text[r.clone()].starts_with("//")).collect()
 }
 
+pub const TINY: [&str; 22] = [
+    "", " ", "\n", "x", "1", "//", "// c", "// c\n", "'", "'a'", "0x", ";", "proc", "  \n  ", "\r\n", "ä", "𝄞", "/", "a b", "type", "\t", "i := 1;",
+];
+
+/// Edits at the boundaries of the text: everything deleted, everything replaced, at offset 0, a
+/// prefix or a suffix deleted, at the very end, and the empty change.
+pub fn boundary_case_edit(rng: &mut Rng, text: &str) -> (std::ops::Range<usize>, String) {
+    let n = text.len();
+    let k = snap(text, rng.below(n + 1));
+    let tiny = rng.pick(&TINY).to_string();
+    match rng.below(9) {
+        0 => (0..n, String::new()),
+        1 => (0..n, tiny),
+        2 => (0..0, tiny),
+        3 => (0..k, String::new()),
+        4 => (k..n, String::new()),
+        5 => (n..n, tiny),
+        6 => (0..snap(text, 1.min(n)), String::new()),
+        7 => (k..k, String::new()),
+        _ => (k..n, tiny),
+    }
+}
+
 pub fn tokens_of(text: &str) -> Vec<std::ops::Range<usize>> {
     crude_tokens(text)
 }
